@@ -46,10 +46,11 @@ def _template(ctx, cfg):
         # segment's end (a pointer equal to p_vaddr + p_filesz of the FIRST segment belongs to the second)
         X = img.blob([0x7a] * 23 + [0])
     stroff = img.blob(DYNSTR)
-    k = len(SYMNAMES)
+    SYMN = [0, 30, 30] if cfg.get('dupnames') else SYMNAMES      # dupnames: two dynamic symbols share a name (foo@V1 / foo@@V2)
+    k = len(SYMN)
     symsz = L.sizeof('SYM', cls)
     svals = [0] + [ctx.uint('sym%d.value' % i, A) for i in range(1, k)]
-    symoff = img.blob(sum([L.encode('SYM', cls, little, dict(st_name=SYMNAMES[i], st_value=svals[i], st_info=0x12, st_shndx=1 if i else 0)) for i in range(k)], []), align=8)
+    symoff = img.blob(sum([L.encode('SYM', cls, little, dict(st_name=SYMN[i], st_value=svals[i], st_info=0x12, st_shndx=1 if i else 0)) for i in range(k)], []), align=8)
     w = lambda v: enc.enc_int(v, 4, little)
     hashoff = None
     gnuoff = None
@@ -140,7 +141,7 @@ def _tag_ok(ctx, label, got, raw):
 
 def _check_dynamic(ctx, dyn, exp, label):
     tags = exp['tags']
-    got = ctx.drain(dyn.iter_tags())
+    got = ctx.walk(lambda: dyn.iter_tags())
     ctx.check_eq(label + '/tag-count (up to and including the first DT_NULL)', len(got), len(tags))
     ctx.check_eq(label + '/num_tags', dyn.num_tags(), len(tags))
     if len(got) != len(tags):
@@ -205,10 +206,12 @@ def h_dynamic(ctx):
     # dynamic symbols through the segment
     n = seg.num_symbols()
     ctx.check_eq('segment/%s/num_symbols/%s' % (variant, cfg['hash']), n, exp['k'])
-    syms = ctx.drain(seg.iter_symbols())
-    ctx.check_eq('segment/symbols', [(s.name, s['st_value']) for s in syms], [(_s(SYMNAMES[i]), exp['svals'][i]) for i in range(exp['k'])])
+    syms = ctx.walk(lambda: seg.iter_symbols())
+    SYMN = [0, 30, 30] if cfg.get('dupnames') else SYMNAMES
+    ctx.check_eq('segment/symbols', [(s.name, s['st_value']) for s in syms], [(_s(SYMN[i]), exp['svals'][i]) for i in range(exp['k'])])
     r = seg.get_symbol_by_name('gg')
-    ctx.check('segment/get_symbol_by_name', r is not None and len(r) == 1 and r[0].name == 'gg')
+    # by name: exactly the symbols bearing the name, all of them, in table order
+    ctx.check_eq('segment/get_symbol_by_name', None if r is None else [(x.name, x['st_value']) for x in r], [('gg', exp['svals'][i]) for i in range(exp['k']) if SYMN[i] == 30])
     ctx.check('segment/get_symbol_by_name/absent', seg.get_symbol_by_name('nope') is None)
     if variant != 'stripped':
         sec = elf.get_section_by_name('.dynamic')
@@ -222,6 +225,8 @@ def h_dynamic(ctx):
             ctx.check_eq('views/same-values', [x[1] for x in a], [x[1] for x in b])
         dsym = elf.get_section_by_name('.dynsym')
         ctx.check_eq('views/symbols', [(s.name, s['st_value']) for s in dsym.iter_symbols()], [(s.name, s['st_value']) for s in syms])
+        r2 = dsym.get_symbol_by_name('gg')
+        ctx.check_eq('views/get_symbol_by_name', None if r2 is None else [(x.name, x['st_value']) for x in r2], None if r is None else [(x.name, x['st_value']) for x in r])
     else:
         ctx.check_eq('stripped/no-sections', elf.num_sections(), 0)
 
@@ -277,6 +282,8 @@ def _instances(tier):
             # two PT_LOAD segments, the dynamic tables at the very start of the second one
             out.append(dict(elfclass=cls, little=little, variant=variant, hash='gnu' if cls == 64 else 'sysv', rela=(cls == 64), rpath=True, symstr=1, layout='split'))
         out.append(dict(elfclass=cls, little=little, variant='stripped', hash='sysv', rela=(cls == 64), rpath=True, symstr=0, phslack=8))
+        out.append(dict(elfclass=cls, little=little, variant='stripped', hash='gnu', rela=(cls == 64), rpath=True, symstr=0, dupnames=True))
+        out.append(dict(elfclass=cls, little=little, variant='sections', hash='sysv', rela=(cls == 64), rpath=True, symstr=0, dupnames=True))
         out.append(dict(elfclass=cls, little=little, variant='stripped', hash='gnu', rela=True, rpath=True, symstr=0, both_flavours=True))
         out.append(dict(elfclass=cls, little=little, variant='sections', hash='gnu', rela=(cls == 64), rpath=True, symstr=0, relr=True))
         out.append(dict(elfclass=cls, little=little, variant='stripped', hash='sysv', rela=(cls == 64), rpath=True, symstr=0, relr=True, layout='split'))
